@@ -400,7 +400,7 @@ def gen_branch(tier, r):
     """Directed stream for the two dimensions seeds Q and R changed: WHICH of (value, minimum, step) are integral (8 patterns per
     format class: the code picks the exact-integer branch on that) x HOW MANY steps lie between the minimum and the value (1, 999999,
     exactly 10^6, 10^6+1, 10^7, 10^12: six digits hold 999999 steps) x the sign of the step x the spelling of the value."""
-    n = 9000 if tier == "quick" else 150000
+    n = 9000 if tier == "quick" else 80000
     cases = [("uint8", 0, 100, 0.5, 5), ("uint16", None, None, 0.01, 250.0), ("int", -50, 50, 2.5, 4), ("uint8", 0, 100, 2.5, 6),
              ("uint8", 0.5, 100.5, 2, 7), ("float", 0, 100000, 0.01, 50000), ("float", 0, 1, "1e-6", 1), ("float", 0, 1, "1e-6", 0.999999),
              ("float", -1000000, 1000000, 0.5, 0), ("uint32", 0, 4294967295, 1, 1234567.5), ("uint32", 0, 4294967295, 1, "3000000.25"),
